@@ -429,8 +429,21 @@ fn run_case(behs6: &[Beh], behs4: &[Beh], v4_first: bool, deadline: Deadline, co
             }
         }
     }
+    // attempts against a black-hole stay pending (SYN retransmissions) after the race is over: the
+    // port must not be handed to a listener of a later case while they may still arrive
+    let mut yard = GRAVEYARD.lock().unwrap();
+    for p in peers6.into_iter().chain(peers4.into_iter()) {
+        if let Peer::B(b) = p {
+            yard.push_back((Instant::now(), b));
+        }
+    }
+    while yard.front().map_or(false, |(t, _)| t.elapsed() > Duration::from_secs(25)) || yard.len() > 200 {
+        yard.pop_front();
+    }
     out
 }
+
+static GRAVEYARD: std::sync::Mutex<std::collections::VecDeque<(Instant, BlackHole)>> = std::sync::Mutex::new(std::collections::VecDeque::new());
 
 fn decode(code: u32, n: usize) -> Vec<Beh> {
     let mut c = code;
